@@ -429,13 +429,19 @@ def DisMaxParser(fieldboosts, schema, tiebreak=0.0, **kwargs):
     across a set of fields.
 
     :param fieldboosts: a dictionary mapping field names to boosts.
+    :param tiebreak: the tiebreak value of the DisjunctionMax queries.
     """
 
     from whoosh.qparser import plugins, syntax
 
+    def dismaxgroup(nodes=None, **groupkwargs):
+        # Keyword arguments of a group node are passed on to its query class
+        groupkwargs.setdefault("tiebreak", tiebreak)
+        return syntax.DisMaxGroup(nodes, **groupkwargs)
+
     mfp = plugins.MultifieldPlugin(list(fieldboosts.keys()),
                                    fieldboosts=fieldboosts,
-                                   group=syntax.DisMaxGroup)
+                                   group=dismaxgroup)
     pins = [plugins.WhitespacePlugin,
             plugins.PlusMinusPlugin,
             plugins.PhrasePlugin,
